@@ -439,3 +439,16 @@ Definition check_lattice (cs : list N) (ps : list provider) (dict : list (list n
   | RPanic, RPanic => true
   | _, _ => false
   end.
+
+(* one correspondence case: a text (observed classes / can_bow / continuity), the configured providers, direct provider
+   calls (provider index, offset, CreatedWords bits, ends of pre-filled result nodes, observed output), the lexicon matches per
+   position and the observed lattice *)
+Definition check_case (cs : list N) (bows : list bool) (conts : list nat) (ps : list provider)
+           (calls : list (nat * nat * N * list nat * res (list node)))
+           (dict : list (list nat)) (lat : res (list (list node))) : bool :=
+  check_buffer cs bows conts
+  && forallb (fun cl => match cl with
+                        | (pi, off, other, pre, out) =>
+                          match nth_error ps pi with Some p => check_call cs p off other pre out | None => false end
+                        end) calls
+  && check_lattice cs ps dict lat.
